@@ -23,7 +23,7 @@ instance and every flag vector; only `children_complete` needs the instance to b
                  C12Pos    — `with_field_mem` (sound + complete positions), `children_complete`,
                              `with_field_truthiness_irrelevant`, `child_uids_truthiness_irrelevant`
   this file      `call_runs_own_function` (first-use independence), the `…_fails` witnesses for the
-                 mechanism (`without_repointing_fails`) and for the two repaired defects
+                 mechanism (`without_repointing_fails`, `marker_sharing_fails`) and for the two repaired defects
                  (`F12_pre_fix_fails`, `F17_pre_fix_fails`), non-vacuity examples.
 -/
 import PyOak.Props.C12Pos
@@ -35,23 +35,24 @@ namespace C12
 
 /-- every class has its own entry: the stub or the function generated for *that* class -/
 def World.Good (w : World) : Prop :=
-  w.slots.length = w.parents.length ∧
+  w.slots.length = w.mros.length ∧
   ∀ k, k < w.slots.length → w.slots[k]? = some (some .stub) ∨ w.slots[k]? = some (some (.gen k))
 
-/-- the worlds a program can reach: class definitions and accessor calls in any order -/
+/-- the worlds a program can reach: class definitions (any MRO: single or multiple inheritance,
+with or without own fields) and accessor calls in any order -/
 inductive Reach : World → Prop
   | init : Reach ⟨[], []⟩
-  | define (w : World) (parent : Option Nat) : Reach w → Reach (w.defineClass parent)
-  | call (w : World) (k : Nat) : Reach w → k < w.parents.length → Reach (w.call k).2
+  | define (w : World) (mro : List Nat) : Reach w → Reach (w.defineClass mro)
+  | call (w : World) (k : Nat) : Reach w → k < w.mros.length → Reach (w.call k).2
 
-theorem lookup_good {w : World} (h : World.Good w) {k fuel : Nat} (hk : k < w.parents.length) :
-    w.lookup (fuel + 1) k = .stub ∨ w.lookup (fuel + 1) k = .gen k := by
+theorem lookup_good {w : World} (h : World.Good w) {k : Nat} (hk : k < w.mros.length) :
+    w.lookup k = .stub ∨ w.lookup k = .gen k := by
   unfold World.lookup
   have h1 := h.1
-  rcases h.2 k (by omega) with e | e <;> simp [e]
+  rcases h.2 k (by omega) with e | e <;> simp [List.findSome?_cons, e]
 
 theorem call_snd_slots (w : World) (k : Nat) :
-    (w.call k).2 = w ∨ (w.call k).2 = ⟨w.parents, w.slots.set k (some (.gen k))⟩ := by
+    (w.call k).2 = w ∨ (w.call k).2 = ⟨w.mros, w.slots.set k (some (.gen k))⟩ := by
   unfold World.call
   split <;> simp
 
@@ -80,20 +81,26 @@ theorem good_of_reach {w : World} (h : Reach w) : World.Good w := by
         exact ih.2 j hj
 
 /-- **the result does not depend on which class of a hierarchy was defined, instantiated or queried
-first**: after any sequence of class definitions and accessor calls, calling the accessor on an
-instance of class `k` runs the function generated from the fields of `k` itself -/
-theorem call_runs_own_function {w : World} (h : Reach w) {k : Nat} (hk : k < w.parents.length) :
+first**: after any sequence of class definitions (single or multiple inheritance) and accessor
+calls, calling the accessor on an instance of class `k` runs the function generated from the
+fields of `k` itself -/
+theorem call_runs_own_function {w : World} (h : Reach w) {k : Nat} (hk : k < w.mros.length) :
     (w.call k).1 = k := by
   have hg := good_of_reach h
   unfold World.call
-  obtain ⟨f, hf⟩ : ∃ f, w.parents.length = f + 1 := ⟨w.parents.length - 1, by omega⟩
-  rw [hf]
-  rcases lookup_good hg (fuel := f) hk with e | e <;> simp [e]
+  rcases lookup_good hg hk with e | e <;> simp [e]
 
 /-- why `__init_subclass__` must re-point the accessors: without it a subclass defined after the
 first use of its base runs the base's function (class 1 runs the function of class 0) -/
 theorem without_repointing_fails :
-    (((((World.mk [] []).defineClass none).call 0).2.defineClassNoRepoint (some 0)).call 1).1 = 0 := by
+    (((((World.mk [] []).defineClass []).call 0).2.defineClassNoRepoint [0]).call 1).1 = 0 := by
+  decide
+
+/-- … and why it must do so for **every** subclass, also one that declares no field of its own:
+`class A`, `class B`, `A` used, `class C(A, B): pass` left without its own stubs → an instance of `C`
+(class 2, whose fields are those of `B` and `A`) runs the function generated for `A` (class 0) -/
+theorem marker_sharing_fails :
+    ((((((World.mk [] []).defineClass []).defineClass []).call 0).2.defineClassNoRepoint [0, 1]).call 2).1 = 0 := by
   decide
 
 /-! ## K. the two defects of the unrepaired tree, on the model of the unrepaired code -/
@@ -157,9 +164,10 @@ example : (toPropertiesDict cls inst).map (fun e => (String.ofList e.1, e.2))
     = [("q", .prop 1), ("a", .prop 2), ("n", .prop 3)] := by decide
 example : IsNameOrder (ordered true cls.props) cls.props := ordered_isNameOrder _
 example : (getChildNodes cls (Inst.retruth (fun _ => false) inst) false).map Nd.uid = [7, 8] := by decide
-example : Reach ((((World.mk [] []).defineClass none).call 0).2.defineClass (some 0)) :=
+example : Reach ((((World.mk [] []).defineClass []).call 0).2.defineClass [0]) :=
   .define _ _ (.call _ 0 (.define _ _ .init) (by decide))
-example : (((((World.mk [] []).defineClass none).call 0).2.defineClass (some 0)).call 1).1 = 1 := by decide
+example : (((((World.mk [] []).defineClass []).call 0).2.defineClass [0]).call 1).1 = 1 := by decide
+example : ((((((World.mk [] []).defineClass []).defineClass []).call 0).2.defineClass [0, 1]).call 2).1 = 2 := by decide
 
 end Examples
 
